@@ -79,6 +79,17 @@ def observe_one(sc, style):
         tr = simulate_script(script, engine=engine_build.engine("euler"))
     out["t"] = [float(v) for v in tr.t.convert("s").value]
     out["data"] = [float(v) for v in tr.data.convert("molecule").value]
+    # the stochastic engines work in molecules whatever the script's amount unit: the state they start from (recorded at t = 0, no
+    # processing) is the system's state, in any units
+    for kind in ("tauleap", "gillespie"):
+        s0 = strengths.RDScript(system=system, t_sample=[0.0], t_max=0.0, time_step=script.time_step, rng_seed=1,
+                                init_state_processing="none", units_system=script.units_system)
+        eng = engine_build.engine(kind)
+        eng.setup(s0)                 # the record of t = 0 is taken at set-up: no step is needed (a system without any event would never end)
+        t0 = eng.get_output()
+        eng.finalize()
+        out["data"] += [float(v) for v in t0.data.convert("molecule").value]
+        out.setdefault("t0", []).append([float(v) for v in t0.data.convert("molecule").value])
     return out
 
 
@@ -111,7 +122,7 @@ def finite(o):
 
 def oracle(it):
     o = it["obs"]
-    name = ("descriptions that differ only in units give the same initial state, chemostat map, rate of change and Euler trajectory in common units")
+    name = ("descriptions that differ only in units give the same initial state, chemostat map, rate of change, Euler trajectory and starting state of the stochastic engines in common units")
     base = o["base"]
 
     def close(a, b, fl=0.0):
@@ -130,6 +141,9 @@ def oracle(it):
                 return False, name + " [variant '%s': %s differs]" % (v["kind"], key)
         if base["chemostats"] != ov["chemostats"]:
             return False, name + " [variant '%s': chemostats differ]" % v["kind"]
+        for kind, t0 in zip(("tauleap", "gillespie"), ov.get("t0", [])):
+            if not close(ov["state"], t0, 1e-8 * smax):
+                return False, name + " [variant '%s': the %s engine starts from another state than the system's]" % (v["kind"], kind)
     return True, name
 
 
